@@ -288,15 +288,17 @@ class TransformToMarkdown:
         cls, pragma_token: PragmaToken, transformed_data: str
     ) -> str:
         ordered_lines = collections.OrderedDict(
-            sorted(pragma_token.pragma_lines.items())
+            sorted(pragma_token.pragma_lines.items(), key=lambda item: abs(item[0]))
         )
 
-        for next_line_number in ordered_lines:
+        for next_line_key in ordered_lines:
+            # Pragmas with the alternate prefix are stored under a negative line number.
+            next_line_number = abs(next_line_key)
             POGGER.debug(
-                f"pragma-->{ParserHelper.make_value_visible(ordered_lines[next_line_number])}<--"
+                f"pragma-->{ParserHelper.make_value_visible(ordered_lines[next_line_key])}<--"
             )
             detabified_pragma = TabHelper.detabify_string(
-                ordered_lines[next_line_number]
+                ordered_lines[next_line_key]
             )
             POGGER.debug(
                 f"pragma-->{ParserHelper.make_value_visible(detabified_pragma)}<--"
